@@ -292,7 +292,7 @@ func (x *txnCtx) rangeOp(op *Op) {
 			w.fail(violation("cursor", "Range callback for %d has the cursor at %d", idx, x.txn.Index()))
 			return
 		}
-		if (op.Limit > 0 && n >= op.Limit) || (!x.exact && n >= 8) {
+		if (op.Limit > 0 && n >= op.Limit) || (!x.exact && n >= 8) || n >= 32 {
 			return
 		}
 		n++
